@@ -16,26 +16,7 @@ META = {
 }
 
 # Demonstrated on the unchanged tree (see the final report of the family).  One entry per root cause.
-PROPOSED_KNOWN = [
-    {"kind": "known", "signature": {"fam": "valuelit", "lang": "json", "cause": "non-finite-float"},
-     "what": "JSON context: NaN, +Inf, -Inf render as NaN / +Inf / -Inf, which is not JSON (internal/runtime/renderer.go "
-             "showInJSON: strconv.FormatFloat(v, 'f', -1, 64)); also nested, e.g. {\"a\":NaN}"},
-    {"kind": "known", "signature": {"fam": "valuelit", "lang": "js", "cause": "non-finite-float"},
-     "what": "JavaScript context: +Inf and -Inf render as +Inf / -Inf, i.e. unary +/- applied to the unbound identifier Inf "
-             "(ReferenceError) instead of Infinity / -Infinity (renderer.go showInJS)"},
-    {"kind": "known", "signature": {"fam": "valuelit", "lang": "json", "cause": "nil-byte-slice-as-empty-string"},
-     "what": "JSON context: a nil []byte renders as \"\" where encoding/json gives null (renderer.go showInJSON: the []byte case "
-             "precedes the v.IsNil() test)"},
-    {"kind": "known", "signature": {"fam": "valuelit", "lang": "json", "cause": "embedded-struct-not-flattened"},
-     "what": "JSON context: an embedded struct renders as a nested object under the type name (and an unexported embedded struct "
-             "is dropped) where encoding/json promotes its exported fields (renderer.go showInJSON, reflect.Struct case)"},
-    {"kind": "known", "signature": {"fam": "valuelit", "lang": "json", "cause": "time-subsecond-dropped"},
-     "what": "JSON context: a time.Time with a sub-second part renders without it (v.Format(time.RFC3339)) where encoding/json "
-             "gives RFC3339Nano"},
-    {"kind": "known", "signature": {"fam": "valuelit", "lang": "js", "cause": "js-date-negative-subhour-offset"},
-     "what": "JavaScript context: a time.Time whose zone offset is between -00:59 and -00:01 renders with '+00:mm' (showTimeInJS "
-             "formats the hour 0 with %+0.2d): the Date is a different instant"},
-]
+PROPOSED_KNOWN = []   # four of the five deviations found by this check were fixed in /repo; embedded-struct promotion stays a known finding (known-findings.json)
 
 FAMS = ["valuelit"]
 MC_INVS = ["PrintParse", "ModelMeetsRefExceptAsFound", "FixRemovesNonFinite", "ModelAlwaysParses"]
